@@ -118,6 +118,8 @@ def run(ctx) -> None:
     ctx.rule("R6", "prerequisite: the parts of the derived pattern read back what is rendered for them (C02/R1-R3): a derived search pattern that stops short of its occurrence leaves the rest of the old text behind")
     from sa.report import run_prerequisite
     run_prerequisite(ctx, "C02", ("R1", "R2", "R3"), "R6")
+    # "the text written for {pep440_version}": written by the rewrite, next to a {version} occurrence on the same line as well
+    run_prerequisite(ctx, "C03", ("R1", "R3", "R4"), "R6")
     ctx.rule("R7", "prerequisite: the PEP440 value printed by test/show is the comparator's canonical string (C16/R7)")
     run_prerequisite(ctx, "C16", ("R7",), "R7")
     ctx.rule("R5", "derivation constants: 'v' stripped, separators stripped, PYTAGNUM appended; to_pep440 = str(parse_version(v))")
